@@ -20,7 +20,7 @@ def main(tier, only=None):
             c02b.run(rep, thorough, only)
         if not only:
             from relsmt import conform
-            conform.run(rep, 'C02', thorough, families=('join', 'agg'))
+            conform.run(rep, 'C02', thorough, families=('join', 'agg', 'topn'))
     rep.cov['states'] = max(1, rep.cov['programs'])
     rep.cov['transitions'] = max(1, rep.cov['obligations'])
     rep.cov['traces_validated_against_impl'] = rep.cov['disagreements_checked']
